@@ -165,3 +165,7 @@ func (p *Plan) Scalar(key, typeName string) *parsers.J {
 
 // ReplaceInt is the value a DReplace directive returns.
 const ReplaceInt = 777
+
+// StampInt / StampStr are what the @stamp directive adds to the value produced inside it.
+const StampInt = 1000
+const StampStr = "~"
